@@ -57,6 +57,12 @@ T["C11"] = dict(
     technique="TLA+ specification + TLC exhaustive check; spec->code replay of the inverse relation",
     ref="6. C11")
 
+T["C09"] = dict(
+    text="TLC checks spec/MC_Integral (Midpoints, AggMu and the five reductions of Defuzzifiers.tla in exact arithmetic) on every aggregated set of 0-2 (thorough 3) activated terms over 5 terms x 4 degrees x 3 implications x 3 aggregations x 4 resolutions plus seeded cases: result in range, SOM<=MOM<=LOM, NaN iff the sampled membership is zero everywhere, centroid translation equivariance. Three links bind it to the code: Op.midpoints vs exact midpoints; the code's sampled vector vs the specification's; each defuzzifier vs the property's reduction applied to the code's own (x,y) (tie-aware for Bisector), and on tie-free cases vs TLC's exact value. Batches, resolutions 100/1000, arbitrary ranges and tiny degrees through links 0/2 and the relations.",
+    note="Ties that rounding breaks are judged on the values the code computed (counted as accepted_by_tie_tolerance). Known finding: resolution 1 with batch degrees (KNOWN_FINDINGS.txt).",
+    technique="TLA+ exact-arithmetic specification + TLC exhaustive check; three-link spec->code replay",
+    ref="6. C09")
+
 PLANNED = {}
 
 def main():
